@@ -3,7 +3,7 @@
 From Coq Require Import List NArith Lia Bool ZifyN ZifyNat ZifyBool.
 From FS Require Import Sx Model.Path Model.Fs Model.RootPath Model.CopyFs Model.CopyFsSpec
   Proofs.Lex Proofs.PathP Proofs.FsP Proofs.RootPathStrP Proofs.FsCopyFrameP Proofs.FsCopyInvP
-  Proofs.FsCopySafeP Proofs.FsCopyLinksP Proofs.FsCopySysP Proofs.CopyFsP.
+  Proofs.FsCopySafeP Proofs.FsCopyLinksP Proofs.FsCopySysP Proofs.CopyFsP Proofs.CopyFsNrP.
 Import ListNotations.
 Open Scope N_scope.
 Open Scope bool_scope.
@@ -171,84 +171,6 @@ Section Rec.
   Lemma pend_paths_nil cs pend : pend_paths cs pend = [] -> pend = [].
   Proof. destruct pend; [auto|discriminate]. Qed.
 
-  Lemma create_parents_go_spec o ow : forall todo done cs d pend s s' r,
-    Ctx (s_fs s) -> chain (s_fs s) dr cs d -> Forall nm cs -> Forall nonul cs -> Forall nm pend -> Forall nonul pend ->
-    uncopied todo = pend_paths cs pend ->
-    create_parents_go c o ow todo done s = (s', r) ->
-    stays d s s' /\ s_links s' = s_links s /\
-    (forall ps', r = inl ps' -> ps' = done ++ allc todo /\ exists d', chain (s_fs s') dr (cs ++ pend) d').
-  Proof.
-    induction todo as [|[[sp dp] copied] rest IH]; intros done cs d pend s s' r C Hc Hcs Hcn Hp Hpn Hu H.
-    - cbn [create_parents_go ret] in H. injection H as <- <-. simpl in Hu. symmetry in Hu. apply pend_paths_nil in Hu. subst pend.
-      split; [apply stays_refl; auto|]. split; [reflexivity|]. intros ps' E. inversion E; subst. rewrite !app_nil_r. split; auto. eauto.
-    - cbn [create_parents_go] in H. destruct copied.
-      + assert (Hu' : uncopied rest = pend_paths cs pend) by exact Hu.
-        destruct (IH _ cs d pend s s' r C Hc Hcs Hcn Hp Hpn Hu' H) as (S & EL & P). split; auto. split; auto.
-        intros ps' E. destruct (P ps' E) as (-> & Hd'). split; auto. rewrite <- app_assoc. reflexivity.
-      + assert (Hd : is_dir (s_fs s) d = true) by (eapply chain_end_dir; eauto).
-        destruct pend as [|p pend']; [discriminate|]. simpl in Hu. injection Hu as Edp Hu'.
-        inversion Hp as [|? ? Hp1 Hp']; subst. inversion Hpn as [|? ? Hpn1 Hpn']; subst.
-        rewrite bind_run, sys_run in H. cbn [fst snd] in H. rewrite sys_stat_fs in H.
-        assert (Hfail : forall s1 (r1 : list (bytes * bytes * bool) + N), s_fs s1 = s_fs s -> s_links s1 = s_links s -> s_parents s1 = s_parents s ->
-                  (forall a, r1 <> inl a) ->
-                  stays d s s1 /\ s_links s1 = s_links s /\ (forall ps', r1 = inl ps' -> ps' = done ++ allc ((sp, render (dcs ++ cs ++ [p]), false) :: rest) /\
-                                     exists d', chain (s_fs s1) dr (cs ++ p :: pend') d')).
-        { intros s1 r1 E1 E2 E3 Hr. split; [apply stays_same; auto|]. split; auto. intros ps' E. exfalso. eapply Hr; eauto. }
-        destruct (snd (sys_stat c (s_fs s) sp)) as [|e|si sfi| | |];
-          try (unfold fail in H; injection H as <- <-; apply Hfail; auto; discriminate).
-        rewrite bind_run, log_read_run in H. cbn [s_fs s_links s_parents s_reads] in H.
-        set (s1 := {| s_fs := s_fs s; s_links := s_links s; s_parents := s_parents s; s_reads := si :: s_reads s |}) in H.
-        destruct (negb (kind_is_dir sfi)); [unfold fail in H; injection H as <- <-; apply Hfail; auto; discriminate|].
-        rewrite bind_run in H.
-        assert (T1 : Tgt (s_fs s1) cs d p) by (constructor; auto).
-        assert (S1 : stays d s s1) by (apply stays_same; auto).
-        change (render (dcs ++ cs ++ [p])) with (tpath cs p) in H.
-        destruct (copy_directory_only c (tpath cs p) sfi ow s1) as [s2 [created|e]] eqn:E2.
-        2:{ injection H as <- <-. destruct (copy_directory_only_spec c f0 dr dcs s1 s2 _ cs d p sfi ow T1 E2) as (S2 & EL2 & _).
-            split; [eapply stays_trans; [exact Hd|exact S1|exact S2]|split; [exact EL2|discriminate]]. }
-        destruct (copy_directory_only_spec c f0 dr dcs s1 s2 _ cs d p sfi ow T1 E2) as (S2 & EL2 & P2).
-        destruct (P2 created eq_refl) as (d1 & Hb1 & Hd1).
-        assert (T2 : Tgt (s_fs s2) cs d p) by (eapply tgt_stays; eauto).
-        assert (Hc2 : chain (s_fs s2) dr (cs ++ [p]) d1) by (eapply chain_snoc; eauto; apply T2).
-        assert (Hq2 : chain (s_fs s2) d [p] d1) by (econstructor; eauto; constructor; auto).
-        assert (S12 : stays d s s2) by (eapply stays_trans; [exact Hd|exact S1|exact S2]).
-        rewrite bind_run in H.
-        (* metadata of a created parent *)
-        assert (Hmeta : forall s3 r3, (if created then copy_file_info c o sfi (tpath cs p) ;;; copy_xattrs c (tpath cs p) sp else ret tt) s2 = (s3, r3) ->
-                  mstep s2 s3).
-        { intros s3 r3 E3. destruct created; [|cbn [ret] in E3; inversion E3; subst; apply mstep_refl; apply T2].
-          assert (Hn : names_ss (s_fs s2) d p d1).
-          { split; auto. eapply (chain_SS f0 dr (s_fs s2)); [eapply tgt_inv; eauto|exact Hc2|eapply ctx_dr_SS; apply T2]. }
-          assert (Hl : kind_is_link sfi = false -> FsP.is_link (s_fs s2) d1 = false).
-          { intros _. unfold FsP.is_link. unfold is_dir, dir_of in Hd1. destruct (get (s_fs s2) d1) as [[[? ?|?|?|? ?] ?]|]; auto; discriminate. }
-          rewrite bind_run in E3.
-          destruct (copy_file_info c o sfi (tpath cs p) s2) as [s2' [[]|e]] eqn:E4.
-          - pose proof (copy_file_info_spec c f0 dr dcs s2 s2' _ cs d p d1 o sfi T2 Hn Hl E4) as M4.
-            eapply mstep_trans; [exact M4|].
-            eapply copy_xattrs_spec; [eapply mstep_tgt; eauto|eapply mstep_names; eauto|eauto].
-          - inversion E3; subst. eapply copy_file_info_spec; eauto. }
-        destruct ((if created then copy_file_info c o sfi (tpath cs p) ;;; copy_xattrs c (tpath cs p) sp else ret tt) s2) as [s3 [[]|e]] eqn:E3.
-        2:{ injection H as <- <-. pose proof (Hmeta s3 _ eq_refl) as M3. split; [eapply stays_trans; [exact Hd|exact S12|apply mstep_stays; eauto]|].
-            split; [|discriminate]. destruct M3 as (_ & E & _). rewrite E. exact EL2. }
-        pose proof (Hmeta s3 _ eq_refl) as M3.
-        assert (S23 : stays d s2 s3) by (apply mstep_stays; auto).
-        assert (Hc3 : chain (s_fs s3) dr (cs ++ [p]) d1).
-        { eapply (stays_chain d1 s2 s3); [apply mstep_stays; exact M3|exact Hc2|]. constructor; auto. }
-        assert (C3 : Ctx (s_fs s3)) by apply S23.
-        assert (Hu3 : uncopied rest = pend_paths (cs ++ [p]) pend') by exact Hu'.
-        destruct (IH (done ++ [(sp, tpath cs p, true)]) (cs ++ [p]) d1 pend' s3 s' r C3 Hc3) as (S4 & EL4 & P4); auto;
-          try (apply Forall_app; split; auto).
-        assert (Hq3 : chain (s_fs s3) d [p] d1).
-        { eapply (stays_chain d1 s2 s3); [apply mstep_stays; exact M3|exact Hq2|]. constructor; auto. }
-        split; [|split].
-        * eapply stays_trans; [exact Hd|exact S12|]. eapply stays_trans; [eapply tgt_dir; eauto|exact S23|].
-          eapply stays_below; eauto.
-        * destruct M3 as (_ & E & _). rewrite EL4, E. exact EL2.
-        * intros ps' E. destruct (P4 ps' E) as (-> & d' & Hd'). split.
-          -- rewrite <- app_assoc. reflexivity.
-          -- exists d'. rewrite <- app_assoc in Hd'. exact Hd'.
-  Qed.
-
   Definition setp (s : cst) (l : list (bytes * bytes * bool)) : cst :=
     {| s_fs := s_fs s; s_links := s_links s; s_parents := l; s_reads := s_reads s |}.
   Lemma get_parents_run s : get_parents s = (s, inl (s_parents s)). Proof. reflexivity. Qed.
@@ -262,6 +184,250 @@ Section Rec.
   Lemma stays_ok_setp {A} d s l (r : A + N) : Ctx (s_fs s) -> stays_ok d s (setp s l) r.
   Proof. intros C. split; [exact C|]. split; [apply above_refl|]. split; [auto|apply keeps_new_refl]. Qed.
 
+  (* ---- the reads of the source side ----
+     R: the inodes a source read may name; SP: source paths; SPN: source paths that name something
+     that is not a symlink (in every state).  The five facts are proved for disjoint roots in
+     CopyFsSrcP.v; with R, SP, SPN := True they are trivial (the lemmas without "_r" below). *)
+  Section Reads.
+    Variable R : N -> Prop.
+    Variables SP SPN : bytes -> Prop.
+    Hypothesis HA : forall f p i, Ctx f -> SP p -> resolve_ino c f p false = inl i -> R i.
+    Hypothesis HB : forall f p i n, Ctx f -> SP p -> resolve_ino c f p false = inl i -> get f i = Some n ->
+      kind_is_link n = false -> SPN p.
+    Hypothesis HC : forall f p j, Ctx f -> SPN p -> resolve_ino c f p true = inl j -> R j.
+    Hypothesis HD : forall f p j pp es n, Ctx f -> SPN p -> resolve_ino c f p true = inl j ->
+      dir_of f j = Some (pp, es) -> In n (map fst es) -> SP (join2 p n).
+    Hypothesis HN : forall p, SPN p -> SP p.
+
+    Definition rok (s : cst) : Prop := forall i, In i (s_reads s) -> R i.
+    (* the source paths on the parentDirs stack name real directories *)
+    Definition pok (l : list (bytes * bytes * bool)) : Prop := Forall (fun e => SPN (fst (fst e))) l.
+
+    Lemma rok_same s s' : s_reads s' = s_reads s -> rok s -> rok s'.
+    Proof. intros E H i Hi. rewrite E in Hi. auto. Qed.
+    Lemma rok_cons s s' i : s_reads s' = i :: s_reads s -> R i -> rok s -> rok s'.
+    Proof. intros E Hr H j Hj. rewrite E in Hj. destruct Hj as [<-|Hj]; auto. Qed.
+    Lemma rok_nr {A} (m : M A) s s' r : NR m -> m s = (s', r) -> rok s -> rok s'.
+    Proof. intros Hm E. apply rok_same. eapply Hm; eauto. Qed.
+
+    Lemma sys_lstat_ino f p i n : snd (sys_lstat c f p) = RStat i n -> resolve_ino c f p false = inl i /\ get f i = Some n.
+    Proof.
+      unfold sys_lstat. destruct (resolve_ino c f p false) as [j|e]; [|discriminate].
+      destruct (get f j) as [m|] eqn:Eg; [|discriminate]. cbn [snd]. intros H. inversion H; subst. auto.
+    Qed.
+    Lemma sys_stat_ino f p i n : snd (sys_stat c f p) = RStat i n -> resolve_ino c f p true = inl i /\ get f i = Some n.
+    Proof.
+      unfold sys_stat. destruct (resolve_ino c f p true) as [j|e]; [|discriminate].
+      destruct (get f j) as [m|] eqn:Eg; [|discriminate]. cbn [snd]. intros H. inversion H; subst. auto.
+    Qed.
+
+    Lemma pok_allc l : pok l -> pok (allc l).
+    Proof. unfold pok, allc. intros H. rewrite Forall_map. exact H. Qed.
+    Lemma pok_app l1 l2 : pok (l1 ++ l2) <-> pok l1 /\ pok l2.
+    Proof. apply Forall_app. Qed.
+
+    (* copyXAttrs: Lstat-like reads of the source entry *)
+    Lemma copy_xattrs_reads s s' r dst src : Ctx (s_fs s) -> SP src ->
+      copy_xattrs c dst src s = (s', r) -> rok s -> rok s'.
+    Proof.
+      intros C Hs H Rk. unfold copy_xattrs in H. rewrite bind_run, sys_run in H. cbn [fst snd] in H.
+      rewrite sys_lstat_fs in H.
+      destruct (snd (sys_lstat c (s_fs s) src)) as [|e|j n| | |] eqn:El;
+        try (unfold fail in H; injection H as <- <-; exact Rk).
+      destruct (sys_lstat_ino _ _ _ _ El) as [Er _].
+      rewrite bind_run, log_read_run in H. cbn [s_fs s_links s_parents s_reads] in H.
+      match type of H with set_xattrs _ _ _ ?sx = _ => assert (Rx : rok sx) end.
+      { eapply rok_cons; [reflexivity| |exact Rk]. eapply HA; eauto. }
+      eapply rok_nr; [apply NR_set_xattrs|exact H|exact Rx].
+    Qed.
+
+    Lemma finish_meta_reads s s' r cs d x i o fi src : Tgt (s_fs s) cs d x -> names_ss (s_fs s) d x i ->
+      (kind_is_link fi = false -> FsP.is_link (s_fs s) i = false) -> SP src ->
+      finish_meta c o fi src (tpath cs x) s = (s', r) -> rok s -> rok s'.
+    Proof.
+      intros T Hn Hl Hs H Rk. unfold finish_meta in H. rewrite bind_run in H.
+      destruct (copy_file_info c o fi (tpath cs x) s) as [s1 [[]|e]] eqn:E1.
+      - pose proof (copy_file_info_spec c f0 dr dcs s s1 _ cs d x i o fi T Hn Hl E1) as M1.
+        assert (C1 : Ctx (s_fs s1)) by (destruct M1 as (M1 & _); apply M1).
+        eapply copy_xattrs_reads; [exact C1|exact Hs|exact H|]. eapply rok_nr; [apply NR_copy_file_info|exact E1|exact Rk].
+      - injection H as <- <-. eapply rok_nr; [apply NR_copy_file_info|exact E1|exact Rk].
+    Qed.
+
+    (* copyFile: os.Open(source) *)
+    Lemma copy_file_reads s s' r src target : Ctx (s_fs s) -> SPN src ->
+      copy_file c src target s = (s', r) -> rok s -> rok s'.
+    Proof.
+      intros C Hs H Rk. unfold copy_file in H. rewrite bind_run in H. unfold get_fs at 1 in H.
+      destruct (resolve_ino c (s_fs s) src true) as [j|e] eqn:Er; [|unfold fail in H; injection H as <- <-; exact Rk].
+      destruct (get (s_fs s) j) as [[[pp es|data|t|ty rd] m]|]; try (unfold fail in H; injection H as <- <-; exact Rk).
+      rewrite bind_run, log_read_run in H.
+      match type of H with bind _ _ ?sx = _ => assert (Rx : rok sx) end.
+      { eapply rok_cons; [reflexivity| |exact Rk]. eapply HC; eauto. }
+      revert H. match goal with |- ?m ?sx = _ -> _ => intros H; eapply (rok_nr m); [|exact H|exact Rx] end.
+      nr.
+    Qed.
+
+    Lemma copy_regular_reads s s' r src target ino : Ctx (s_fs s) -> SPN src ->
+      copy_regular c src target ino s = (s', r) -> rok s -> rok s'.
+    Proof.
+      intros C Hs H Rk. unfold copy_regular in H. rewrite bind_run in H. unfold get_fs at 1 in H.
+      destruct (N.ltb 1 (nlink (s_fs s) ino)); [|eapply copy_file_reads; eauto].
+      rewrite bind_run in H. unfold get_links at 1 in H.
+      destruct (assoc_N ino (s_links s)) as [first|].
+      - revert H. match goal with |- ?m s = _ -> _ => intros H; eapply (rok_nr m); [|exact H|exact Rk] end. nr.
+      - rewrite bind_run in H. unfold add_link at 1 in H.
+        eapply copy_file_reads; [| |exact H|]; auto.
+    Qed.
+
+    (* createParentDirs: os.Stat of the source directories whose copy was deferred *)
+    Lemma create_parents_go_spec_r o ow : forall todo done cs d pend s s' r,
+      Ctx (s_fs s) -> chain (s_fs s) dr cs d -> Forall nm cs -> Forall nonul cs -> Forall nm pend -> Forall nonul pend ->
+      uncopied todo = pend_paths cs pend ->
+      create_parents_go c o ow todo done s = (s', r) ->
+      (stays d s s' /\ s_links s' = s_links s /\
+       (forall ps', r = inl ps' -> ps' = done ++ allc todo /\ exists d', chain (s_fs s') dr (cs ++ pend) d')) /\
+      (pok todo -> rok s -> rok s').
+    Proof.
+      induction todo as [|[[sp dp] copied] rest IH]; intros done cs d pend s s' r C Hc Hcs Hcn Hp Hpn Hu H.
+      - cbn [create_parents_go ret] in H. injection H as <- <-. simpl in Hu. symmetry in Hu. apply pend_paths_nil in Hu. subst pend.
+        split; [|auto].
+        split; [apply stays_refl; auto|]. split; [reflexivity|]. intros ps' E. inversion E; subst. rewrite !app_nil_r. split; auto. eauto.
+      - cbn [create_parents_go] in H. destruct copied.
+        + assert (Hu' : uncopied rest = pend_paths cs pend) by exact Hu.
+          destruct (IH _ cs d pend s s' r C Hc Hcs Hcn Hp Hpn Hu' H) as ((S & EL & P) & Rd).
+          split; [|intros Hpk; inversion Hpk; subst; auto].
+          split; auto. split; auto.
+          intros ps' E. destruct (P ps' E) as (-> & Hd'). split; auto. rewrite <- app_assoc. reflexivity.
+        + assert (Hd : is_dir (s_fs s) d = true) by (eapply chain_end_dir; eauto).
+          destruct pend as [|p pend']; [discriminate|]. simpl in Hu. injection Hu as Edp Hu'.
+          inversion Hp as [|? ? Hp1 Hp']; subst. inversion Hpn as [|? ? Hpn1 Hpn']; subst.
+          rewrite bind_run, sys_run in H. cbn [fst snd] in H. rewrite sys_stat_fs in H.
+          assert (Hfail : forall s1 (r1 : list (bytes * bytes * bool) + N), s_fs s1 = s_fs s -> s_links s1 = s_links s -> s_parents s1 = s_parents s ->
+                    (forall a, r1 <> inl a) ->
+                    stays d s s1 /\ s_links s1 = s_links s /\ (forall ps', r1 = inl ps' -> ps' = done ++ allc ((sp, render (dcs ++ cs ++ [p]), false) :: rest) /\
+                                       exists d', chain (s_fs s1) dr (cs ++ p :: pend') d')).
+          { intros s1 r1 E1 E2 E3 Hr. split; [apply stays_same; auto|]. split; auto. intros ps' E. exfalso. eapply Hr; eauto. }
+          destruct (snd (sys_stat c (s_fs s) sp)) as [|e|si sfi| | |] eqn:Est;
+            try (unfold fail in H; injection H as <- <-; split; [apply Hfail; auto; discriminate|intros _ Rk; exact Rk]).
+          rewrite bind_run, log_read_run in H. cbn [s_fs s_links s_parents s_reads] in H.
+          set (s1 := {| s_fs := s_fs s; s_links := s_links s; s_parents := s_parents s; s_reads := si :: s_reads s |}) in H.
+          assert (Rd1 : pok ((sp, render (dcs ++ cs ++ [p]), false) :: rest) -> rok s -> rok s1).
+          { intros Hpk Rk. inversion Hpk as [|? ? Hsp _]; subst. cbn [fst] in Hsp.
+            eapply rok_cons; [reflexivity| |exact Rk]. destruct (sys_stat_ino _ _ _ _ Est) as [Er _]. eapply HC; eauto. }
+          destruct (negb (kind_is_dir sfi)); [unfold fail in H; injection H as <- <-; split; [apply Hfail; auto; discriminate|exact Rd1]|].
+          rewrite bind_run in H.
+          assert (T1 : Tgt (s_fs s1) cs d p) by (constructor; auto).
+          assert (S1 : stays d s s1) by (apply stays_same; auto).
+          change (render (dcs ++ cs ++ [p])) with (tpath cs p) in *.
+          destruct (copy_directory_only c (tpath cs p) sfi ow s1) as [s2 [created|e]] eqn:E2.
+          2:{ injection H as <- <-. destruct (copy_directory_only_spec c f0 dr dcs s1 s2 _ cs d p sfi ow T1 E2) as (S2 & EL2 & _).
+              split; [split; [eapply stays_trans; [exact Hd|exact S1|exact S2]|split; [exact EL2|discriminate]]|].
+              intros Hpk Rk. eapply rok_nr; [apply NR_copy_directory_only|exact E2|auto]. }
+          destruct (copy_directory_only_spec c f0 dr dcs s1 s2 _ cs d p sfi ow T1 E2) as (S2 & EL2 & P2).
+          assert (Rd2 : pok ((sp, tpath cs p, false) :: rest) -> rok s -> rok s2).
+          { intros Hpk Rk. eapply rok_nr; [apply NR_copy_directory_only|exact E2|auto]. }
+          destruct (P2 created eq_refl) as (d1 & Hb1 & Hd1).
+          assert (T2 : Tgt (s_fs s2) cs d p) by (eapply tgt_stays; eauto).
+          assert (Hc2 : chain (s_fs s2) dr (cs ++ [p]) d1) by (eapply chain_snoc; eauto; apply T2).
+          assert (Hq2 : chain (s_fs s2) d [p] d1) by (econstructor; eauto; constructor; auto).
+          assert (S12 : stays d s s2) by (eapply stays_trans; [exact Hd|exact S1|exact S2]).
+          rewrite bind_run in H.
+          (* metadata of a created parent *)
+          assert (Hmeta : forall s3 r3, (if created then copy_file_info c o sfi (tpath cs p) ;;; copy_xattrs c (tpath cs p) sp else ret tt) s2 = (s3, r3) ->
+                    mstep s2 s3 /\ (SP sp -> rok s2 -> rok s3)).
+          { intros s3 r3 E3. destruct created; [|cbn [ret] in E3; inversion E3; subst; split; [apply mstep_refl; apply T2|auto]].
+            assert (Hn : names_ss (s_fs s2) d p d1).
+            { split; auto. eapply (chain_SS f0 dr (s_fs s2)); [eapply tgt_inv; eauto|exact Hc2|eapply ctx_dr_SS; apply T2]. }
+            assert (Hl : kind_is_link sfi = false -> FsP.is_link (s_fs s2) d1 = false).
+            { intros _. unfold FsP.is_link. unfold is_dir, dir_of in Hd1. destruct (get (s_fs s2) d1) as [[[? ?|?|?|? ?] ?]|]; auto; discriminate. }
+            split.
+            - rewrite bind_run in E3.
+              destruct (copy_file_info c o sfi (tpath cs p) s2) as [s2' [[]|e]] eqn:E4.
+              + pose proof (copy_file_info_spec c f0 dr dcs s2 s2' _ cs d p d1 o sfi T2 Hn Hl E4) as M4.
+                eapply mstep_trans; [exact M4|].
+                eapply copy_xattrs_spec; [eapply mstep_tgt; eauto|eapply mstep_names; eauto|eauto].
+              + inversion E3; subst. eapply copy_file_info_spec; eauto.
+            - intros Hsp Rk. eapply (finish_meta_reads s2 s3 r3 cs d p d1 o sfi sp); eauto. }
+          destruct ((if created then copy_file_info c o sfi (tpath cs p) ;;; copy_xattrs c (tpath cs p) sp else ret tt) s2) as [s3 [[]|e]] eqn:E3.
+          2:{ injection H as <- <-. destruct (Hmeta s3 _ eq_refl) as (M3 & Rd3).
+              split; [split; [eapply stays_trans; [exact Hd|exact S12|apply mstep_stays; eauto]|]|].
+              - split; [|discriminate]. destruct M3 as (_ & E & _). rewrite E. exact EL2.
+              - intros Hpk Rk. apply Rd3; auto. inversion Hpk as [|? ? Hsp _]; subst. apply HN. exact Hsp. }
+          destruct (Hmeta s3 _ eq_refl) as (M3 & Rd3).
+          assert (S23 : stays d s2 s3) by (apply mstep_stays; auto).
+          assert (Hc3 : chain (s_fs s3) dr (cs ++ [p]) d1).
+          { eapply (stays_chain d1 s2 s3); [apply mstep_stays; exact M3|exact Hc2|]. constructor; auto. }
+          assert (C3 : Ctx (s_fs s3)) by apply S23.
+          assert (Hu3 : uncopied rest = pend_paths (cs ++ [p]) pend') by exact Hu'.
+          destruct (IH (done ++ [(sp, tpath cs p, true)]) (cs ++ [p]) d1 pend' s3 s' r C3 Hc3) as ((S4 & EL4 & P4) & Rd4); auto;
+            try (apply Forall_app; split; auto).
+          assert (Hq3 : chain (s_fs s3) d [p] d1).
+          { eapply (stays_chain d1 s2 s3); [apply mstep_stays; exact M3|exact Hq2|]. constructor; auto. }
+          split; [split; [|split]|].
+          * eapply stays_trans; [exact Hd|exact S12|]. eapply stays_trans; [eapply tgt_dir; eauto|exact S23|].
+            eapply stays_below; eauto.
+          * destruct M3 as (_ & E & _). rewrite EL4, E. exact EL2.
+          * intros ps' E. destruct (P4 ps' E) as (-> & d' & Hd'). split.
+            -- rewrite <- app_assoc. reflexivity.
+            -- exists d'. rewrite <- app_assoc in Hd'. exact Hd'.
+          * intros Hpk Rk. inversion Hpk as [|? ? Hsp Hrest]; subst. cbn [fst] in Hsp.
+            apply Rd4; auto; apply Rd3; auto.
+    Qed.
+
+    Lemma create_parent_dirs_spec_r o ow cs d pend s s' r :
+      Ctx (s_fs s) -> chain (s_fs s) dr cs d -> Forall nm cs -> Forall nonul cs -> Forall nm pend -> Forall nonul pend ->
+      uncopied (s_parents s) = pend_paths cs pend ->
+      create_parent_dirs c o ow s = (s', r) ->
+      (stays_ok d s s' r /\ (lok s -> lok s') /\ s_links s' = s_links s /\
+       (r = inl tt -> s_parents s' = allc (s_parents s) /\ exists d', chain (s_fs s') dr (cs ++ pend) d')) /\
+      (pok (s_parents s) -> rok s -> rok s').
+    Proof.
+      intros C Hc H1 H2 H3 H4 Hu H. unfold create_parent_dirs in H. rewrite bind_run, get_parents_run in H. rewrite bind_run in H.
+      destruct (create_parents_go c o ow (s_parents s) [] s) as [s1 [ps'|e]] eqn:E1.
+      - destruct (create_parents_go_spec_r o ow _ [] cs d pend s s1 _ C Hc H1 H2 H3 H4 Hu E1) as ((S1 & EL1 & P1) & Rd1).
+        destruct (P1 ps' eq_refl) as (-> & d' & Hd'). rewrite set_parents_run in H. injection H as <- <-.
+        destruct S1 as (C1 & A1 & L1 & K1 & Q1).
+        split; [|exact Rd1].
+        split; [split; auto; split; auto; split; auto|]. split; [exact L1|]. split; [exact EL1|].
+        intros _. split; [reflexivity|eauto].
+      - destruct (create_parents_go_spec_r o ow _ [] cs d pend s s1 _ C Hc H1 H2 H3 H4 Hu E1) as ((S1 & EL1 & _) & Rd1).
+        injection H as <- <-. destruct S1 as (C1 & A1 & L1 & K1 & Q1).
+        split; [|exact Rd1].
+        split; [split; auto; split; auto; split; auto|]. split; [exact L1|]. split; [exact EL1|discriminate].
+    Qed.
+
+    (* the loop over the children, with an invariant, the reads included *)
+    Lemma each_m_inv_r (P : bytes -> Prop) (I : cst -> Prop) g d :
+      (forall s, I s -> Ctx (s_fs s) /\ is_dir (s_fs s) d = true) ->
+      (forall n s s' r, P n -> I s -> lok s -> rok s -> g n s = (s', r) -> stays_ok d s s' r /\ (ok_res r -> I s') /\ rok s') ->
+      forall ns, Forall P ns -> forall s s' r, I s -> lok s -> rok s ->
+        each_m g ns s = (s', r) -> stays_ok d s s' r /\ (ok_res r -> I s') /\ rok s'.
+    Proof.
+      intros HI Hg ns Hall. induction Hall as [|n ns Hn Hns IH]; intros s s' r Is L Rk H.
+      - cbn [each_m ret] in H. injection H as <- <-. split; [|auto]. apply stays_stays_ok. apply stays_refl. apply HI; auto.
+      - cbn [each_m] in H. rewrite bind_run in H. destruct (HI s Is) as [C Hd].
+        destruct (g n s) as [s1 [[]|e]] eqn:E1.
+        + destruct (Hg n s s1 _ Hn Is L Rk E1) as (S1 & I1 & Rk1). specialize (I1 (ex_intro _ tt eq_refl)).
+          assert (L1 : lok s1) by (destruct S1 as (_ & _ & L1 & _); apply L1; auto; exists tt; reflexivity).
+          destruct (IH s1 s' r I1 L1 Rk1 H) as (S2 & I2 & Rk2). split; [|auto].
+          eapply (stays_ok_seq c f0 dr dcs d s s1 s' tt); eauto.
+        + injection H as <- <-. destruct (Hg n s s1 _ Hn Is L Rk E1) as (S1 & _ & Rk1). split; [|split; [intros [a Ha]; discriminate|exact Rk1]].
+          eapply stays_ok_fail; eauto.
+      Qed.
+  End Reads.
+
+  Lemma create_parents_go_spec o ow : forall todo done cs d pend s s' r,
+    Ctx (s_fs s) -> chain (s_fs s) dr cs d -> Forall nm cs -> Forall nonul cs -> Forall nm pend -> Forall nonul pend ->
+    uncopied todo = pend_paths cs pend ->
+    create_parents_go c o ow todo done s = (s', r) ->
+    stays d s s' /\ s_links s' = s_links s /\
+    (forall ps', r = inl ps' -> ps' = done ++ allc todo /\ exists d', chain (s_fs s') dr (cs ++ pend) d').
+  Proof.
+    intros todo done cs d pend s s' r C Hc H1 H2 H3 H4 Hu H.
+    pose proof (create_parents_go_spec_r (fun _ => True) (fun _ => True) (fun _ => True)) as G.
+    eapply G; eauto; intros; exact I.
+  Qed.
+
   Lemma create_parent_dirs_spec o ow cs d pend s s' r :
     Ctx (s_fs s) -> chain (s_fs s) dr cs d -> Forall nm cs -> Forall nonul cs -> Forall nm pend -> Forall nonul pend ->
     uncopied (s_parents s) = pend_paths cs pend ->
@@ -269,16 +435,9 @@ Section Rec.
     stays_ok d s s' r /\ (lok s -> lok s') /\ s_links s' = s_links s /\
     (r = inl tt -> s_parents s' = allc (s_parents s) /\ exists d', chain (s_fs s') dr (cs ++ pend) d').
   Proof.
-    intros C Hc H1 H2 H3 H4 Hu H. unfold create_parent_dirs in H. rewrite bind_run, get_parents_run in H. rewrite bind_run in H.
-    destruct (create_parents_go c o ow (s_parents s) [] s) as [s1 [ps'|e]] eqn:E1.
-    - destruct (create_parents_go_spec o ow _ [] cs d pend s s1 _ C Hc H1 H2 H3 H4 Hu E1) as (S1 & EL1 & P1).
-      destruct (P1 ps' eq_refl) as (-> & d' & Hd'). rewrite set_parents_run in H. injection H as <- <-.
-      destruct S1 as (C1 & A1 & L1 & K1 & Q1).
-      split; [split; auto; split; auto; split; auto|]. split; [exact L1|]. split; [exact EL1|].
-      intros _. split; [reflexivity|eauto].
-    - destruct (create_parents_go_spec o ow _ [] cs d pend s s1 _ C Hc H1 H2 H3 H4 Hu E1) as (S1 & EL1 & _).
-      injection H as <- <-. destruct S1 as (C1 & A1 & L1 & K1 & Q1).
-      split; [split; auto; split; auto; split; auto|]. split; [exact L1|]. split; [exact EL1|discriminate].
+    intros C Hc H1 H2 H3 H4 Hu H.
+    pose proof (create_parent_dirs_spec_r (fun _ => True) (fun _ => True) (fun _ => True)) as G.
+    eapply G; eauto; intros; exact I.
   Qed.
 
   (* ---- the loop over the children, with an invariant ---- *)
